@@ -253,8 +253,8 @@ func runCase(c Case, raw json.RawMessage) M {
 	select {
 	case run := <-done:
 		return M{"case": raw, "run": run}
-	case <-time.After(30 * time.Second):
-		return M{"case": raw, "run": M{"cfg": cfg, "H": []M{}, "reads": 0, "rem": 0, "outcome": "hang: scan did not end within 30s", "resume": []M{}}}
+	case <-time.After(120 * time.Second):
+		return M{"case": raw, "run": M{"cfg": cfg, "H": []M{}, "reads": 0, "rem": 0, "outcome": "hang: scan did not end within 120s", "resume": []M{}}}
 	}
 }
 
